@@ -612,3 +612,106 @@ Proof.
   induction l as [|a l IH]; [reflexivity|]. cbn. rewrite N.eqb_refl, IH.
   unfold attr_value_ok. destruct (a_default a); cbn; rewrite ?N.eqb_refl; reflexivity.
 Qed.
+
+(* ------------------------------------------------------------------ *)
+(* the object built for a type mirrors the type                        *)
+(* ------------------------------------------------------------------ *)
+Lemma mirrors_obj W strict path t cls items :
+  mirrors W strict path t (PObj cls items) =
+  attrs_match (exp_attrs W t) (filter is_attr_item items) &&
+  match_members (fun e k x => value_ok W strict (mirrors W strict) path e k x)
+                (absent_ok path) (exp_members W t) items.
+Proof. reflexivity. Qed.
+
+Lemma nodupb_NoDup l : nodupb l = true -> NoDup l.
+Proof.
+  induction l as [|k r IH]; cbn; intro H; constructor.
+  - apply andb_true_iff in H as [H _]. intro Hi. apply key_in_In in Hi. rewrite Hi in H. discriminate.
+  - apply IH. apply andb_true_iff in H as [_ H]. exact H.
+Qed.
+
+Lemma wf_names_nodup W t : wf_names W = true -> In t (w_types W) -> NoDup (ordering (all_items W t)).
+Proof.
+  unfold wf_names. intros H Hi. rewrite forallb_forall in H. apply nodupb_NoDup. apply H. exact Hi.
+Qed.
+
+Lemma find_named_complex_in W q t : find_named W q = Some (SComplex t) -> In t (w_types W).
+Proof.
+  unfold find_named. destruct (find_type (w_types W) q) as [t'|] eqn:E.
+  - intro H. inversion H; subst. eapply find_type_in; eauto.
+  - destruct (find_simple W q) as [[[ns n] vals]|]; discriminate.
+Qed.
+
+Definition inv (hist : list hid) (path : list qn) : Prop :=
+  forall h, In h hist ->
+    e_multi (snd h) = false /\ e_opt (snd h) = false /\
+    exists ns n, e_type (snd h) = TNamed ns n /\ qn_in (ns, n) path = true.
+
+Lemma qn_in_cons q p path : qn_in q path = true -> qn_in q (p :: path) = true.
+Proof. unfold qn_in. cbn. intro H. rewrite H. apply orb_true_r. Qed.
+
+Lemma qn_in_head q path : qn_in q (q :: path) = true.
+Proof.
+  unfold qn_in. cbn. replace (qn_eqb q q) with true by (symmetry; apply qn_eqb_eq_l; reflexivity). reflexivity.
+Qed.
+
+Lemma items_nonempty_entries it l :
+  flat_map entry_of (it :: l) = [] -> flat_map attr_of_item (it :: l) = [] -> False.
+Proof. destruct it; cbn; intros H1 H2; discriminate. Qed.
+
+Lemma members_mirror W :
+  wf_names W = true ->
+  forall fuel hist path t cls,
+    In t (w_types W) -> inv hist path -> remaining W hist < fuel ->
+    mirrors W false path t
+            (PObj cls (iter_items (ordering (all_items W t)) (members W fuel hist t))) = true.
+Proof.
+  intros Hwf. induction fuel as [|f IH]; intros hist path t cls Ht Hinv Hrem; [lia|].
+  change (members W (Datatypes.S f) hist t) with (built W (members W f) hist (all_items W t)).
+  pose proof (wf_names_nodup W t Hwf Ht) as Hnd.
+  rewrite iter_built by exact Hnd.
+  rewrite mirrors_obj. rewrite filter_attr_items, exp_attrs_items, attrs_match_entries.
+  rewrite exp_members_items. cbn [andb]. apply match_items; [exact Hnd|].
+  intros it Hit. destruct it as [o i d ch op| |a]; cbn [item_cond]; auto.
+  - split.
+    + intros k x Hne. unfold value_ok. destruct ch; [reflexivity|]. cbn [negb andb].
+      replace (N.eqb (e_name d) (fst k)) with false; [reflexivity|].
+      symmetry. apply N.eqb_neq. congruence.
+    + unfold member_value. destruct ch; [reflexivity|].
+      destruct (hid_in (o, i, d) hist) eqn:Eh.
+      { apply hid_in_In in Eh. destruct (Hinv _ Eh) as [Hm [Ho [ns [n [Hty Hq]]]]]. cbn in *.
+        unfold absent_ok. rewrite Hm, Ho, Hty, Hq. reflexivity. }
+      unfold value_ok. cbn [negb andb fst]. rewrite N.eqb_refl. cbn [andb].
+      destruct (e_multi d) eqn:Em; [reflexivity|].
+      unfold resolve_type. destruct (e_type d) as [|ns n] eqn:Ety.
+      { destruct (e_opt d); reflexivity. }
+      destruct (find_named W (ns, n)) as [[t'|sns sn vals|v|en|a|?|bn]|] eqn:Efn;
+        try (destruct (e_opt d); reflexivity).
+      * (* a complex type *)
+        destruct (all_items W t') as [|it0 its0] eqn:Eit.
+        { destruct (e_opt d); [reflexivity|].
+          rewrite exp_members_items, exp_attrs_items, Eit. reflexivity. }
+        destruct (e_opt d) eqn:Eo; [reflexivity|].
+        assert (Hsub : mirrors W false ((ns, n) :: path) t'
+                  (PObj (c_name t') (iter_items (ordering (it0 :: its0))
+                                                 (members W f ((o, i, d) :: hist) t'))) = true).
+        { rewrite <- Eit. apply IH.
+          - eapply find_named_complex_in; eauto.
+          - intros h [<-|Hh]; cbn.
+            + repeat split; auto. exists ns, n. split; auto. apply qn_in_head.
+            + destruct (Hinv h Hh) as [H1 [H2 [ns' [n' [H3 H4]]]]]. repeat split; auto.
+              exists ns', n'. split; auto. apply qn_in_cons. exact H4.
+          - assert (remaining W ((o, i, d) :: hist) < remaining W hist).
+            { apply remaining_cons; auto. eapply item_in_universe; eauto. }
+            lia. }
+        rewrite exp_members_items, exp_attrs_items, Eit.
+        destruct (flat_map entry_of (it0 :: its0)) eqn:E1.
+        { destruct (flat_map attr_of_item (it0 :: its0)) eqn:E2.
+          - exfalso. eapply items_nonempty_entries; eauto.
+          - rewrite Hsub. reflexivity. }
+        rewrite Hsub. reflexivity.
+      * (* a simple type *)
+        destruct vals as [|v vs]; [destruct (e_opt d); reflexivity|].
+        destruct (e_opt d); [reflexivity|]. cbn. reflexivity.
+  - split; reflexivity.
+Qed.
